@@ -211,6 +211,11 @@ TUpdRet ==
   ELSE IF ~E.err /\ upd[E.uid].failed # E.failed THEN Reject("C19-failed-list-changed", <<E.uid, E.failed>>)
   ELSE Skip
 
+TNoStart ==
+  IF E.blocked THEN Reject("C19-unstarted-stub-blocks", <<>>)
+  ELSE IF ~E.noservice THEN Reject("C19-unstarted-stub-no-service", <<E.errtext>>)
+  ELSE Skip
+
 TEnd ==
   IF Len(E.stuck) > 0 THEN Reject("C08-registration-stuck", <<E.stuck>>)
   ELSE IF readers # {} \/ rlock # "" \/ swriter # "" THEN Reject("C08-not-quiescent", <<readers, rlock, swriter>>)
@@ -243,6 +248,7 @@ TraceNext ==
        [] E.ev = "updatefn.leave"   -> TUpdLeave
        [] E.ev = "upd.call"         -> TUpdCall
        [] E.ev = "upd.ret"          -> TUpdRet
+       [] E.ev = "nostart"          -> TNoStart
        [] E.ev = "End"              -> TEnd
        [] OTHER                     -> Skip   \* call, started, leaving, start.failed: no specification step
 
